@@ -48,9 +48,18 @@ func (r *Report) finish(cfg *solverCfg) int {
 	solverTime := 0.0
 	vac := 0
 	byKind := map[string]int{}
+	nBounded, nBoundedOK := 0, 0
+	boundSet := map[string]bool{}
 	for _, o := range r.all {
 		solverTime += o.Secs
 		byKind[o.Kind]++
+		if o.Bounded != "" {
+			nBounded++
+			boundSet[o.Bounded] = true
+			if o.Verdict == "discharged" || o.Verdict == "ok" || o.Verdict == "known" {
+				nBoundedOK++
+			}
+		}
 		switch o.Verdict {
 		case "discharged":
 			nOK++
@@ -150,6 +159,11 @@ func (r *Report) finish(cfg *solverCfg) int {
 		assumptions = append(assumptions, "contract files missing from /repo were overlaid from /verif/contracts-mirror: "+strings.Join(r.prog.overlaid, ", "))
 	}
 	level := "proof"
+	var bounds []string
+	for b := range boundSet {
+		bounds = append(bounds, b)
+	}
+	sort.Strings(bounds)
 	var failedNames []string
 	for _, o := range r.failed {
 		failedNames = append(failedNames, o.Name+": "+o.Detail)
@@ -163,8 +177,11 @@ func (r *Report) finish(cfg *solverCfg) int {
 		"violations":  violations,
 		"assumptions": assumptions,
 		"coverage": map[string]any{
-			"obligations":               len(r.all),
-			"discharged":                nOK + nKnown,
+			"obligations":               len(r.all) - nBounded,
+			"discharged":                nOK + nKnown - nBoundedOK,
+			"bounded_obligations":       nBounded,
+			"bounded_discharged":        nBoundedOK,
+			"bounds":                    bounds,
 			"discharged_unrestricted":   nOK,
 			"discharged_outside_known_findings": nKnown,
 			"failed":                    failedNames,
@@ -189,6 +206,9 @@ func (r *Report) finish(cfg *solverCfg) int {
 	os.MkdirAll(filepath.Join(r.VerifDir, "evidence"), 0o755)
 	data, _ := json.MarshalIndent(ev, "", " ")
 	os.WriteFile(filepath.Join(r.VerifDir, "evidence", r.Prop+".json"), data, 0o644)
+	if nBounded > 0 {
+		fmt.Printf("%s: %d of the obligations are BOUNDED (not counted as proved): %d discharged within the bound\n", r.Prop, nBounded, nBoundedOK)
+	}
 	fmt.Printf("%s: %d obligations, %d discharged, %d known-finding-restricted, %d failed; functions %d; load %.1fs vcgen %.1fs solver-cpu %.1fs wall %.1fs\n",
 		r.Prop, len(r.all), nOK, nKnown, len(r.failed), len(r.frs), r.tLoad, r.tGen, solverTime, time.Since(r.Start).Seconds())
 	if r.verbose {
